@@ -1,4 +1,5 @@
 import WfProofs.EngineReduce
+import WfProofs.RunnerWorkers
 /-!
 # C01 — a step never runs more invocations at once than its worker limit
 
@@ -79,3 +80,185 @@ example :
       [(.addEvent { ev := C01.exEv 1 } none, 0), (.addEvent { ev := C01.exEv 2 } none, 0),
        (.addEvent { ev := C01.exEv 3 } none, 0)]
     ((st.workers 1).inProg.map (·.wid), (st.workers 1).queue.length) = ([0, 1], 1) := by decide
+
+/-! ## The runner: live worker tasks
+
+What the property literally talks about is the set of started-and-unfinished worker
+tasks, `Runner.running`.  Below: `running` is a duplicate-free sub-table of the reducer's
+`in_progress` tables in every state the runner LTS reaches — for every schedule
+(`acts : List Act`: buffer drains, workers finishing in any order with any results, mailbox
+pulls, timers, time, external ticks, stream writes), every policy, every (possibly resumed)
+initial state.  It is an inclusion, not an equality: between a `workerDone` and the `drain`
+of its `stepResult` tick the task is gone while its in-progress row still exists.
+
+**Finding.**  Stated without a guard, this is FALSE of the reducer as it is: a collect
+re-run re-issues `CommandRunWorker` for the finishing worker's own slot, and one
+`stepResult` tick can take the re-run branch *twice* when the results name the same
+collect buffer three times (`ctx.collect_events(ev, …, buffer_id=b)` called three times in
+one invocation of a multi-worker step: re-run, append, re-run again against the refreshed
+snapshot).  Two tasks then run on one slot, a 2-worker step has 3 live tasks, and the
+second task's result finds no in-progress row (the real engine raises
+`ValueError: Worker 1 not found in in_progress`; reproduced on the real code by
+`harness/corpus/c01_double_collect_rerun_witness.py`).  `C01_refuted_*` are the concrete
+witnesses; the `…_partial` theorems hold for every schedule in which no invocation names
+a collect buffer twice (`Act.CollectOnce`, a decidable property of the action list alone).
+-/
+
+/-- start of a run, then an arbitrary schedule -/
+abbrev C01.runFrom (cfg : Cfg) (pol : Policy) (st0 : State) (now : Int) (start : Option Ev)
+    (timeout : Option Nat) (acts : List Act) : Runner :=
+  Runner.run cfg pol (Runner.init cfg st0 now start timeout) acts
+
+/-- full-strength clause 1 (as asked): every live task is backed by an in-progress row of its
+step with its worker id and event, and no two live tasks share a `(step, worker id)` slot -/
+def C01_statement_running_subset_in_progress : Prop :=
+  ∀ (cfg : Cfg), cfg.WF → ∀ (pol : Policy) (st0 : State), IdsInv cfg st0 →
+    ∀ (now : Int) (start : Option Ev) (timeout : Option Nat) (acts : List Act),
+      (∀ w ∈ (C01.runFrom cfg pol st0 now start timeout acts).running,
+        ∃ ip ∈ ((C01.runFrom cfg pol st0 now start timeout acts).st.workers w.step).inProg,
+          ip.wid = w.wid ∧ ip.ev = w.ev) ∧
+      ((C01.runFrom cfg pol st0 now start timeout acts).running.map Worker.slot).Nodup
+
+/-- full-strength clause 2: at most `num_workers` live tasks per step -/
+def C01_statement_running_bounded : Prop :=
+  ∀ (cfg : Cfg), cfg.WF → ∀ (pol : Policy) (st0 : State), IdsInv cfg st0 →
+    ∀ (now : Int) (start : Option Ev) (timeout : Option Nat) (acts : List Act),
+      ∀ c ∈ cfg.steps,
+        ((C01.runFrom cfg pol st0 now start timeout acts).running.filter
+          (fun w => w.step == c.name)).length ≤ c.numWorkers
+
+/-- deliver event `u` to the run: external `send_event`, mailbox pull, process the tick -/
+def C01.feed (u : Nat) : List Act :=
+  [.external (.addEvent { ev := C01.exEv u } none), .pull, .drain]
+
+/-- the witness schedule on the 2-worker step of `C01.exCfg`: events 1 and 2 run on slots 0
+and 1; the first finishes adding its event to collect buffer 7; event 3 takes slot 0; the
+second finishes naming buffer 7 three times -/
+def C01.doubleRerun : List Act :=
+  C01.feed 1 ++ C01.feed 2 ++
+  [.workerDone 1 0 [.addCollected 7 (C01.exEv 1), .result none], .drain] ++
+  C01.feed 3 ++
+  [.workerDone 1 1 [.addCollected 7 (C01.exEv 2), .addCollected 7 (C01.exEv 2),
+      .addCollected 7 (C01.exEv 2)], .drain]
+
+def C01.exPol : Policy := fun _ _ _ _ => .stop
+
+/-- the witness: three live tasks on the 2-worker step, two of them on slot 1, nothing crashed -/
+example :
+    let r := C01.runFrom C01.exCfg C01.exPol initState 0 none none C01.doubleRerun
+    (r.running.map Worker.slot, r.outcome, (r.st.workers 1).inProg.map (·.wid))
+      = ([(1, 0), (1, 1), (1, 1)], none, [1, 0]) := by decide
+
+theorem C01_refuted_running_bounded : ¬ C01_statement_running_bounded := by
+  intro h
+  have := h C01.exCfg (by simp [Cfg.WF, Cfg.names, C01.exCfg]) C01.exPol initState (idsInv_init _)
+    0 none none C01.doubleRerun { name := 1, accepted := [5], numWorkers := 2, hasRetry := false }
+    (by simp [C01.exCfg])
+  revert this
+  decide
+
+theorem C01_refuted_running_subset_in_progress : ¬ C01_statement_running_subset_in_progress := by
+  intro h
+  have := (h C01.exCfg (by simp [Cfg.WF, Cfg.names, C01.exCfg]) C01.exPol initState (idsInv_init _)
+    0 none none C01.doubleRerun).2
+  revert this
+  decide
+
+/-- …and the inclusion itself breaks one step later: the first of the two slot-1 tasks
+completes, its row is removed, the second is still live with no row behind it -/
+example :
+    let r := C01.runFrom C01.exCfg C01.exPol initState 0 none none
+      (C01.doubleRerun ++ [.workerDone 1 1 [.result none], .drain])
+    (r.running.map Worker.slot, (r.st.workers 1).inProg.map (·.wid)) = ([(1, 0), (1, 1)], [0]) := by
+  decide
+
+/-- the event clause fails on its own too: a collect re-run runs with the event named by the
+`AddCollectedEvent` result, which need not be the invocation's event (here uid 9 vs 2) -/
+example :
+    let r := C01.runFrom C01.exCfg C01.exPol initState 0 none none
+      (C01.feed 1 ++ C01.feed 2 ++
+        [.workerDone 1 0 [.addCollected 7 (C01.exEv 1), .result none], .drain,
+         .workerDone 1 1 [.addCollected 7 (C01.exEv 9)], .drain])
+    (r.running.map (fun w => (w.step, w.wid, w.ev.uid)),
+      (r.st.workers 1).inProg.map (fun ip => (ip.wid, ip.ev.uid))) = ([(1, 1, 9)], [(1, 2)]) := by
+  decide
+
+/-- **Clause 1, strongest true form** (invariant of the runner LTS): if no invocation's results
+name a collect buffer twice, then in every reachable runner state every live worker task is
+backed by an in-progress row of its (configured) step with its worker id, and the
+`(step, worker id)` slots of the live tasks are pairwise distinct. -/
+theorem C01_running_subset_in_progress_partial (cfg : Cfg) (hwf : cfg.WF) (pol : Policy) (st0 : State)
+    (h0 : IdsInv cfg st0) (now : Int) (start : Option Ev) (timeout : Option Nat) (acts : List Act)
+    (hg : ∀ a ∈ acts, a.CollectOnce) :
+    (∀ w ∈ (C01.runFrom cfg pol st0 now start timeout acts).running,
+      w.step ∈ cfg.names ∧
+      ∃ ip ∈ ((C01.runFrom cfg pol st0 now start timeout acts).st.workers w.step).inProg,
+        ip.wid = w.wid) ∧
+    ((C01.runFrom cfg pol st0 now start timeout acts).running.map Worker.slot).Nodup := by
+  have h := run_runInv cfg hwf pol False acts _ (guarded_of_collectOnce cfg pol acts _ hg)
+    (init_runInv cfg hwf False st0 h0 now start timeout)
+  refine ⟨fun w hw => ?_, h.nodup⟩
+  obtain ⟨h1, ip, hip, hwid, _⟩ := h.sub w hw
+  exact ⟨h1, ip, hip, hwid⟩
+
+/-- **Clause 1, event part**: if moreover every collect re-run carries the finishing worker's own
+event (`Runner.sameEvent`, checked along the run), the backing row has the task's event. -/
+theorem C01_running_same_event_partial (cfg : Cfg) (hwf : cfg.WF) (pol : Policy) (st0 : State)
+    (h0 : IdsInv cfg st0) (now : Int) (start : Option Ev) (timeout : Option Nat) (acts : List Act)
+    (hg : ∀ a ∈ acts, a.CollectOnce)
+    (he : Runner.sameEvent cfg pol (Runner.init cfg st0 now start timeout) acts = true) :
+    ∀ w ∈ (C01.runFrom cfg pol st0 now start timeout acts).running,
+      ∃ ip ∈ ((C01.runFrom cfg pol st0 now start timeout acts).st.workers w.step).inProg,
+        ip.wid = w.wid ∧ ip.ev = w.ev := by
+  have h := run_runInv cfg hwf pol True acts _ (guarded_of_sameEvent cfg pol acts _ hg he)
+    (init_runInv cfg hwf True st0 h0 now start timeout)
+  intro w hw
+  obtain ⟨_, ip, hip, hwid, hev⟩ := h.sub w hw
+  exact ⟨ip, hip, hwid, hev trivial⟩
+
+/-- **Clause 2, strongest true form**: under the same guard, a step never has more live worker
+tasks than `num_workers`, and every live task runs on a slot in `[0, num_workers)` —
+for retries, collect re-runs, waiter replays and resumed runs alike. -/
+theorem C01_running_bounded_partial (cfg : Cfg) (hwf : cfg.WF) (pol : Policy) (st0 : State)
+    (h0 : IdsInv cfg st0) (now : Int) (start : Option Ev) (timeout : Option Nat) (acts : List Act)
+    (hg : ∀ a ∈ acts, a.CollectOnce) :
+    (∀ c ∈ cfg.steps,
+      ((C01.runFrom cfg pol st0 now start timeout acts).running.filter
+        (fun w => w.step == c.name)).length ≤ c.numWorkers) ∧
+    ∀ w ∈ (C01.runFrom cfg pol st0 now start timeout acts).running, w.wid < cfg.nw w.step :=
+  (run_runInv cfg hwf pol False acts _ (guarded_of_collectOnce cfg pol acts _ hg)
+    (init_runInv cfg hwf False st0 h0 now start timeout)).bounded hwf
+
+/-! Non-vacuity: guarded schedules that do reach the limit, a re-run and a resumed run. -/
+
+/-- two workers of the 2-worker step live at once, the third event stays queued -/
+example :
+    let acts := C01.feed 1 ++ C01.feed 2 ++ C01.feed 3
+    let r := C01.runFrom C01.exCfg C01.exPol initState 0 none none acts
+    (∀ a ∈ acts, a.CollectOnce) ∧ Runner.sameEvent C01.exCfg C01.exPol
+        (Runner.init C01.exCfg initState 0 none none) acts = true ∧
+      (r.running.map Worker.slot, (r.st.workers 1).inProg.map (·.wid), (r.st.workers 1).queue.length)
+        = ([(1, 0), (1, 1)], [0, 1], 1) := by decide
+
+/-- a guarded schedule with a genuine collect re-run (slot 1 re-issued once) and a slot
+re-used by the queued event (slot 0) -/
+example :
+    let acts := C01.feed 1 ++ C01.feed 2 ++ C01.feed 3 ++
+      [.workerDone 1 0 [.addCollected 7 (C01.exEv 1), .result none], .drain,
+       .workerDone 1 1 [.addCollected 7 (C01.exEv 2), .addCollected 8 (C01.exEv 2)], .drain]
+    let r := C01.runFrom C01.exCfg C01.exPol initState 0 none none acts
+    (∀ a ∈ acts, a.CollectOnce) ∧ Runner.sameEvent C01.exCfg C01.exPol
+        (Runner.init C01.exCfg initState 0 none none) acts = true ∧
+      (r.running.map (fun w => (w.step, w.wid, w.ev.uid)), (r.st.workers 1).inProg.map (·.wid))
+        = ([(1, 0, 3), (1, 1, 2)], [1, 0]) := by decide
+
+/-- a resumed run: the serialized state has two in-progress rows and a backlog; the rewind
+restarts exactly two workers -/
+example :
+    let ip (u w : Nat) : InProg :=
+      { ev := C01.exEv u, wid := w, snapEvents := [], snapWaiters := [], attempts := 0, firstAt := 0 }
+    let st0 : State := { isRunning := true, workers := fun s =>
+      if s = 1 then { inProg := [ip 1 1, ip 2 0], queue := [{ ev := C01.exEv 3 }] } else {} }
+    let r := Runner.init C01.exCfg st0 5 none none
+    (r.running.map (fun w => (w.step, w.wid, w.ev.uid)), (r.st.workers 1).queue.length)
+      = ([(1, 0, 2), (1, 1, 1)], 1) := by decide
